@@ -29,6 +29,12 @@ func (g *gen) tickOK() bool {
 
 // tickCall builds tick(mask): a value in [0, mask]; each evaluation moves the counter by one.
 func (g *gen) tickCall(mask int64) ex {
+	g.tickUse()
+	return ex{n: &Node{K: "call", S: tickName, A: []*Node{ilit(mask)}}, lo: 0, hi: float64(mask)}
+}
+
+// tickUse declares the counter (once) and books a call of one of the helpers that move it.
+func (g *gen) tickUse() {
 	if g.tickV == nil {
 		g.tickV = &vinfo{name: tickCtr, typ: "int", global: true, wide: true, lo: -wideB, hi: wideB, gidx: len(g.pr.Globals)}
 		g.globals = append(g.globals, g.tickV)
@@ -37,7 +43,30 @@ func (g *gen) tickCall(mask int64) ex {
 	g.account(3)
 	g.f.sig.readsG, g.f.sig.writesG, g.f.sig.pure = true, true, false
 	g.mark("tick-call")
-	return ex{n: &Node{K: "call", S: tickName, A: []*Node{ilit(mask)}}, lo: 0, hi: float64(mask)}
+}
+
+// Two more helpers of the same kind (declared only in the programs that call them):
+//
+//	func tickp(p, q *T1) *T1 { g9++; if g9&1 == 0 { return p }; return q }      a pointer picked by the counter
+//	func tick2(k int) (int, int) { g9++; return g9 & k, g9 >> 1 & k }            two values for a tuple assignment
+const (
+	tickpName = "tickp"
+	tick2Name = "tick2"
+)
+
+func tickpFunc() Func {
+	return Func{Name: tickpName, Group: true, Params: []Field{{"p", "*T1"}, {"q", "*T1"}}, Results: []Field{{"", "*T1"}}, Body: []*Node{
+		{K: "incdec", S: "++", A: []*Node{vr(tickCtr)}},
+		{K: "if", A: []*Node{none(), bin("==", bin("&", vr(tickCtr), ilit(1)), ilit(0))}, B: []*Node{blk([]*Node{{K: "return", A: []*Node{vr("p")}}}), none()}},
+		{K: "return", A: []*Node{vr("q")}},
+	}}
+}
+
+func tick2Func() Func {
+	return Func{Name: tick2Name, Params: []Field{{"k", "int"}}, Results: []Field{{"", "int"}, {"", "int"}}, Body: []*Node{
+		{K: "incdec", S: "++", A: []*Node{vr(tickCtr)}},
+		{K: "return", A: []*Node{bin("&", vr(tickCtr), vr("k")), bin("&", bin(">>", vr(tickCtr), ilit(1)), vr("k"))}},
+	}}
 }
 
 func tickFunc() Func {
@@ -171,7 +200,11 @@ func (g *gen) observe(st *Node, v *vinfo) *Node {
 func (g *gen) stSide() *Node {
 	for tries := 0; tries < 3; tries++ {
 		var n *Node
-		switch g.weighted([]int{25, 25, 15, 12, 15, 8, 10, 14, 10, 10, 8}, "side") {
+		w := []int{25, 25, 15, 12, 15, 8, 10, 14, 10, 10, 8, 16, 14, 8, 12, 0}
+		if len(g.libFuncs) > 0 {
+			w[15] = 60
+		}
+		switch g.weighted(w, "side") {
 		case 0:
 			n = g.stCompoundIdx()
 		case 1:
@@ -192,6 +225,16 @@ func (g *gen) stSide() *Node {
 			n = g.stSubsliceWrite()
 		case 10:
 			n = g.stRangeRunes()
+		case 11:
+			n = g.stCompoundSel()
+		case 12:
+			n = g.stTupleMultiRet()
+		case 13:
+			n = g.stAppendNilBytes()
+		case 14:
+			n = g.stTupleField()
+		case 15:
+			n = g.stLibFunc()
 		default:
 			n = g.stFuncLit()
 		}
@@ -239,6 +282,286 @@ func (g *gen) stCompoundIdx() *Node {
 	restore()
 	g.noteExpr(e)
 	return &Node{K: "assign", S: []string{"+=", "-="}[g.n(2, "pm")], A: []*Node{t, e.n}}
+}
+
+// stCompoundSel: a[tick(1)].x op= e, a[tick(1)].x++, tickp(p, q).x op= e: a compound assignment whose target is a field
+// selector over an index expression or a call. Go evaluates the operand of the selector once.
+func (g *gen) stCompoundSel() *Node {
+	if !g.tickOK() || g.structDef("T1") == nil || !g.on(kSelectorTwice) {
+		return nil
+	}
+	fld := []string{"x", "y"}[g.n(2, "csf")]
+	sel := func(n *Node) *Node { return &Node{K: "field", S: fld, A: []*Node{n}} }
+	var t, fold *Node
+	as := g.arrayVars(func(v *vinfo) bool { _, el := arrSplit(v.typ); return el == "T1" && g.writable(v) })
+	var ps []*vinfo
+	for _, v := range g.varsOf("*T1") {
+		if g.writable(v) {
+			ps = append(ps, v)
+		}
+	}
+	var pre []*Node
+	if len(as) == 0 && (len(ps) == 0 || g.chance(40)) {
+		// an array of its own
+		typ := arrTypesStruct[g.n(len(arrTypesStruct), "cst")]
+		name := g.newName(false)
+		if g.chance(50) {
+			pre = append(pre, &Node{K: "vardecl", S: name, T: typ})
+			as = append(as, g.declare(name, typ, ex{}))
+		} else {
+			e := g.arrLit(typ, 1)
+			g.noteExpr(e)
+			pre = append(pre, &Node{K: "define", S: name, A: []*Node{e.n}})
+			as = append(as, g.declare(name, typ, e))
+		}
+		g.account(1)
+	}
+	switch {
+	case len(as) > 0 && (len(ps) == 0 || len(pre) > 0 || g.chance(50)):
+		v := as[g.n(len(as), "csa")]
+		g.useVar(v)
+		el := func(i int64) *Node { return sel(&Node{K: "index", A: []*Node{vr(v.name), ilit(i)}}) }
+		t = sel(&Node{K: "index", A: []*Node{vr(v.name), g.tickCall(1).n}})
+		fold = bin("+", el(0), bin("*", el(1), ilit(3)))
+		g.noteWrite(vr(v.name))
+		g.mark("compound-selector-index-call")
+	case len(ps) > 0:
+		p, q := ps[g.n(len(ps), "csp")], ps[g.n(len(ps), "csq")]
+		g.useVar(p)
+		g.useVar(q)
+		g.tickUse()
+		g.tickpFn = true
+		t = sel(&Node{K: "call", S: tickpName, A: []*Node{vr(p.name), vr(q.name)}})
+		fold = bin("+", sel(selBase(p)), bin("*", sel(selBase(q)), ilit(3)))
+		g.noteWrite(vr(p.name))
+		g.noteWrite(vr(q.name))
+		g.mark("compound-selector-call")
+	default:
+		return nil
+	}
+	var st *Node
+	if g.chance(35) {
+		st = &Node{K: "incdec", S: []string{"++", "--"}[g.n(2, "id")], A: []*Node{t}}
+	} else {
+		restore := g.hideTick()
+		e := fitAdd(g.genInt(1))
+		restore()
+		g.noteExpr(e)
+		st = &Node{K: "assign", S: []string{"+=", "-="}[g.n(2, "pm")], A: []*Node{t, e.n}}
+	}
+	out := append(pre, st)
+	if acc, ok := g.accTarget(); ok {
+		g.noteWrite(acc)
+		g.account(1)
+		out = append(out, &Node{K: "assign", S: "+=", A: []*Node{acc, bin("%", fold, ilit(1009))}})
+	}
+	return &Node{K: "seq", B: out}
+}
+
+// stTupleMultiRet: the tuple forms of stTupleIdx fed by ONE call with two results:
+//
+//	i := 1; s[i], i = f()        i, s[i] = f()        s[1], s[1] = f()        w, w = f()
+//
+// f is a generated function with the results (int, int) or the helper tick2.
+func (g *gen) stTupleMultiRet() *Node {
+	if g.f.pure || g.f.inInit || !g.room(8) || !g.on(kTupleMultiRet) {
+		return nil
+	}
+	var call *Node
+	small := false
+	var cs []*fsig
+	for _, f := range g.callables([]string{"int", "int"}, false) {
+		// (the operands of the targets are on the evaluation stack while f runs)
+		if !(f.soft && g.f.noSoftExpr) {
+			cs = append(cs, f)
+		}
+	}
+	if len(cs) > 0 && (!g.tickOK() || g.chance(50)) {
+		f := cs[g.n(len(cs), "tmf")]
+		args, acc, ok := g.genArgs(f, 1)
+		if !ok {
+			return nil
+		}
+		g.noteExpr(acc)
+		g.f.stackItems++
+		g.noteCall(f)
+		g.f.stackItems--
+		if !f.pure {
+			g.f.sig.pure = false
+			g.mark("effect-call")
+		}
+		call = &Node{K: "call", S: f.name, A: args}
+	} else if g.tickOK() {
+		g.tickUse()
+		g.tick2Fn = true
+		small = true
+		call = &Node{K: "call", S: tick2Name, A: []*Node{ilit(1)}}
+	} else {
+		return nil
+	}
+	g.mark("tuple-multi-value-call")
+	form := g.n(4, "tmk")
+	v := g.sliceW()
+	if form == 3 || v == nil {
+		var ws []*vinfo
+		for _, w := range g.varsOf("int") {
+			if w.wide && !w.ro && g.writable(w) {
+				ws = append(ws, w)
+			}
+		}
+		if len(ws) == 0 {
+			return nil
+		}
+		w := ws[g.n(len(ws), "tw")]
+		g.noteWrite(vr(w.name))
+		return &Node{K: "mret", S: "=", N: 2, A: []*Node{vr(w.name), vr(w.name), call}}
+	}
+	g.useVar(v)
+	g.noteWrite(&Node{K: "index", A: []*Node{vr(v.name), ilit(0)}})
+	top := int(idxMask(v.minLen))
+	if small {
+		call.A[0] = ilit(int64(top))
+	}
+	if form == 2 {
+		c1 := int64(g.rng(0, top, "c1"))
+		return g.observe(&Node{K: "mret", S: "=", N: 2, A: []*Node{
+			{K: "index", A: []*Node{vr(v.name), ilit(c1)}}, {K: "index", A: []*Node{vr(v.name), ilit(c1)}}, call}}, v)
+	}
+	name := g.newName(false)
+	decl := &Node{K: "define", S: name, A: []*Node{ilit(int64(g.rng(0, top, "i0")))}}
+	iv := g.add(&vinfo{name: name, typ: "int", lo: -storeB, hi: storeB})
+	if small {
+		iv.lo, iv.hi = 0, float64(top)
+	}
+	el := &Node{K: "index", A: []*Node{vr(v.name), vr(name)}}
+	g.account(1)
+	lhs := []*Node{el, vr(name)}
+	if form == 1 {
+		lhs = []*Node{vr(name), el}
+	}
+	return g.observe(&Node{K: "seq", B: []*Node{decl, {K: "mret", S: "=", N: 2, A: append(lhs, call)}}}, v)
+}
+
+// stTupleField: a tuple assignment with a struct field reached through a pointer among its targets, the pointer written
+// in any of the styles p.x, (p).x, (*p).x:    (*p).x, w = e1, e2        s[0], p.y = e1, e2        (*p).x, (*p).y = e1, e2
+func (g *gen) stTupleField() *Node {
+	if g.f.pure || !g.on(kTupleDeref) {
+		return nil
+	}
+	var ps []*vinfo
+	for _, v := range g.visible() {
+		if len(v.typ) > 0 && v.typ[0] == '*' && g.structDef(baseStruct(v.typ)) != nil && g.writable(v) {
+			ps = append(ps, v)
+		}
+	}
+	if len(ps) == 0 {
+		return nil
+	}
+	p := ps[g.n(len(ps), "tfp")]
+	g.useVar(p)
+	var ints []string
+	for _, f := range g.structDef(baseStruct(p.typ)).Fields {
+		if f.Type == "int" {
+			ints = append(ints, f.Name)
+		}
+	}
+	field := func() *Node {
+		base := vr(p.name)
+		switch g.weighted([]int{60, 25, 15}, "tfs") {
+		case 0:
+			base = &Node{K: "deref", A: []*Node{base}}
+			g.mark("tuple-deref-field")
+		case 2:
+			base = &Node{K: "paren", A: []*Node{base}}
+		}
+		return &Node{K: "field", S: ints[g.n(len(ints), "tff")], A: []*Node{base}}
+	}
+	t1 := field()
+	var t2 *Node
+	switch g.n(3, "tf2") {
+	case 0:
+		t2 = field()
+	case 1:
+		if v := g.sliceW(); v != nil {
+			g.useVar(v)
+			t2 = &Node{K: "index", A: []*Node{vr(v.name), ilit(int64(g.rng(0, int(idxMask(v.minLen)), "tfi")))}}
+		}
+	}
+	if t2 == nil {
+		if w, ok := g.accTarget(); ok {
+			t2 = w
+		} else {
+			t2 = field()
+		}
+	}
+	g.noteWrite(t1)
+	g.noteWrite(t2)
+	e1, e2 := fitStore(g.genInt(1)), fitStore(g.genInt(1))
+	g.noteExpr(e1)
+	g.noteExpr(e2)
+	st := &Node{K: "tassign", S: "=", N: 2, A: []*Node{t1, t2, e1.n, e2.n}}
+	if g.chance(40) {
+		st.A[0], st.A[1] = t2, t1
+	}
+	g.mark("tuple-field-assign")
+	if acc, ok := g.accTarget(); ok {
+		g.noteWrite(acc)
+		g.account(1)
+		read := &Node{K: "field", S: t1.S, A: []*Node{selBase(p)}}
+		return &Node{K: "seq", B: []*Node{st, {K: "assign", S: "+=", A: []*Node{acc, bin("%", read, ilit(1009))}}}}
+	}
+	return st
+}
+
+// stAppendNilBytes: b = append(b, t...) with a nil []byte t appends nothing.
+func (g *gen) stAppendNilBytes() *Node {
+	if !g.on(kAppendNilBytes) {
+		return nil
+	}
+	b := g.pickVar("[]byte", func(v *vinfo) bool { return v.growing && g.writable(v) && !v.global && !g.isParam(v) })
+	if b == nil {
+		return nil
+	}
+	g.account(2)
+	tn := g.newName(false)
+	g.mark("append-nil-bytes")
+	return blk([]*Node{
+		{K: "vardecl", S: tn, T: "[]byte"},
+		{K: "assign", S: "=", A: []*Node{vr(b.name), {K: "append", S: "...", A: []*Node{vr(b.name), vr(tn)}}}},
+	})
+}
+
+// stLibFunc: a function of the imported package called directly, t = lib.L0(x), or used as a value:
+// v := lib.L0; t = v(x)        t = (lib.L0)(x)
+func (g *gen) stLibFunc() *Node {
+	t, ok := g.accTarget()
+	if !ok || len(g.libFuncs) == 0 || !g.room(6) {
+		return nil
+	}
+	g.noteWrite(t)
+	g.account(4)
+	name := libAlias + "." + g.libFuncs[g.n(len(g.libFuncs), "lf")].Name
+	arg := fitStore(g.genInt(1))
+	g.noteExpr(arg)
+	g.libUsed = true
+	form := g.n(3, "lfk")
+	if form > 0 && !g.on(kImportedFuncVal) {
+		form = 0
+	}
+	switch form {
+	case 0:
+		g.mark("imported-func-call")
+		return &Node{K: "assign", S: "=", A: []*Node{t, {K: "call", S: name, A: []*Node{arg.n}}}}
+	case 1:
+		g.mark("imported-func-value")
+		return &Node{K: "assign", S: "=", A: []*Node{t, {K: "call", S: "(" + name + ")", A: []*Node{arg.n}}}}
+	}
+	g.mark("imported-func-value")
+	v := g.newName(false)
+	return &Node{K: "seq", B: []*Node{
+		{K: "define", S: v, A: []*Node{vr(name)}},
+		{K: "assign", S: "=", A: []*Node{t, {K: "call", S: v, A: []*Node{arg.n}}}},
+	}}
 }
 
 // stTupleIdx: tuple assignments whose outcome depends on the two phases of a Go assignment (index operands on the
